@@ -126,6 +126,57 @@ pub fn c17(ctx: &mut Ctx) {
         }
         // the two secrets must render identically everywhere
     }
+    // (a') secret-key construction and derivation under a logger that records everything: nothing at debug
+    // level or above, and no error rendering, may carry the secret — also when construction is refused
+    // because the secret does not fit the key type
+    {
+        use scratchstack_aws_signature::KSecretKey;
+        use std::str::FromStr;
+        fn probe<const M: usize>(secret: &str) -> (String, String) {
+            match KSecretKey::<M>::from_str(secret) {
+                Ok(_) => ("OK".into(), String::new()),
+                Err(e) => ("TOOLONG".into(), format!("{} {:?}", e, e)),
+            }
+        }
+        let pool = ["wJalrXUtnFEMI/K7MDENG+bPxRfiCYEXAMPLEKEY", "Zq9x8mT2vB4nH6kL1pS3dF5gJ7hK0aQwErTyUiOp"];
+        for len in [6usize, 16, 21, 40, 41, 44, 45, 64, 100, 200, 1000] {
+            for (si, base) in pool.iter().enumerate() {
+                let secret: String = base.chars().cycle().skip(si * 3).take(len).collect();
+                for m in [44usize, 24, 3, 100] {
+                    take_records();
+                    let (class, rendered) = match m { 44 => probe::<44>(&secret), 24 => probe::<24>(&secret), 3 => probe::<3>(&secret), _ => probe::<100>(&secret) };
+                    let mut rendered = rendered;
+                    if m == 44 {
+                        if let Ok(k) = KSecretKey::<44>::from_str(&secret) {
+                            let kd = k.to_kdate(chrono::NaiveDate::from_ymd_opt(2015, 8, 30).unwrap());
+                            let kg = kd.to_kregion("us-east-1").to_kservice("iam").to_ksigning();
+                            rendered.push_str(&format!(" {:?} {} {:?} {} {:?} {}", k, k, kd, kd, kg, kg));
+                        }
+                    }
+                    let recs = take_records();
+                    ctx.rep.count("evaluations");
+                    ctx.rep.count("evaluations.FROMSTR_LOGGED");
+                    ctx.rep.count(&format!("impl_outcome.FROMSTR.{}", class));
+                    let mut texts: Vec<(String, String)> = vec![("error / key rendering".into(), rendered)];
+                    for (lv, msg) in recs.iter().filter(|(l, _)| *l <= log::Level::Debug) {
+                        texts.push((format!("log record at {}", lv), msg.clone()));
+                    }
+                    // the secret, and every 12-byte window of it
+                    let mut needles: Vec<(String, Vec<u8>)> = encodings(secret.as_bytes());
+                    for w in secret.as_bytes().windows(12).step_by(4) {
+                        needles.push(("raw window".into(), w.to_vec()));
+                    }
+                    for (what, text) in &texts {
+                        for (enc, needle) in &needles {
+                            if contains(text.as_bytes(), needle) {
+                                ctx.rep.fail(Failure { kind: "ORACLE", op: "FROMSTR".into(), class: "c17-secret-construction".into(), input: format!("KSecretKey::<{}>::from_str(secret of length {}) -> {}", m, len, class), imp: format!("{}: {}", what, text.chars().take(200).collect::<String>()), model: String::new(), spec: enc.clone(), clause: format!("C17: the secret key ({}) appears in {} while constructing / deriving keys", enc, what) });
+                            }
+                        }
+                    }
+                }
+            }
+        }
+    }
     // (b) requests accepted or refused at each rule, validated under two keys that differ in every byte
     let mut lines = Vec::new();
     let mut pending: Vec<(Case, Obs, Obs, String, Vec<u8>, Vec<u8>, Vec<u8>)> = Vec::new();
@@ -297,11 +348,53 @@ fn corpus(ctx: &mut Ctx, n: usize) -> Vec<Case> {
     out
 }
 
+/// Pairs of requests with the same raw path, one validated in S3 mode and one in standard mode (each signed
+/// for its own mode), the S3 one first: what one configuration did with a path must not influence another.
+fn mode_pairs(ctx: &mut Ctx, n: usize) -> Vec<Case> {
+    let mut rng = ctx.rng.fork();
+    let mut out = Vec::new();
+    for k in 0..n {
+        let noise: Vec<&[u8]> = (0..1 + rng.below(3)).map(|_| *rng.pick(&[&b""[..], b".", b"x", b"%2E"])).collect();
+        let mut raw = format!("/p{}", k).into_bytes();
+        let mut std_segments = vec![format!("p{}", k).into_bytes()];
+        let mut s3_segments = std_segments.clone();
+        for n in &noise {
+            raw.push(b'/');
+            raw.extend_from_slice(n);
+            s3_segments.push(if *n == b"%2E" { b".".to_vec() } else { n.to_vec() });
+            if *n == b"x" {
+                std_segments.push(b"x".to_vec());
+            }
+        }
+        raw.extend_from_slice(b"/obj");
+        std_segments.push(b"obj".to_vec());
+        s3_segments.push(b"obj".to_vec());
+        let raw = String::from_utf8(raw).unwrap();
+        for s3 in [true, false] {
+            let mut l = simple_logical(if k % 2 == 0 { Carrier::Header } else { Carrier::Query }, 1_440_938_160_000_000_000);
+            l.s3 = s3;
+            l.segments = if s3 { s3_segments.clone() } else { std_segments.clone() };
+            let now = now_for(&l, 0);
+            let mut s = sign_and_spell(&l, &mut rng, &Spelling::plain(), now);
+            // both twins travel with the same raw path
+            let q = s.case.uri.find('?').map(|i| s.case.uri[i..].to_string()).unwrap_or_default();
+            let prefix = if s.case.uri.starts_with("https://") { "https://example.amazonaws.com" } else { "" };
+            s.case.uri = format!("{}{}{}", prefix, raw, q);
+            out.push(s.case);
+        }
+    }
+    out
+}
+
 pub fn c18(ctx: &mut Ctx) {
     let n = ctx.n(150, 1500);
-    let cases = corpus(ctx, n);
+    let mut cases = mode_pairs(ctx, ctx.n(20, 200));
+    let npairs = cases.len();
+    cases.extend(corpus(ctx, n));
     // model agreement and the single reference answer
-    let jobs: Vec<Job> = cases.iter().map(|c| job(c.clone(), Expect::Any, "c18", "")).collect();
+    let jobs: Vec<Job> = cases.iter().enumerate().map(|(i, c)| if i < npairs {
+        job(c.clone(), Expect::Accept, "c18-mode-pair", "C18: a request validated in one mode after the same raw path was validated in the other mode was refused — the outcome depends on process history")
+    } else { job(c.clone(), Expect::Any, "c18", "") }).collect();
     run_jobs(ctx, "VALIDATE", jobs);
     let reference: Vec<String> = cases.iter().map(outcome_line).collect();
     // (a) repetition in this process, each time in another order (so that every validation is preceded by
